@@ -57,6 +57,14 @@ CertCases == [kind : {"cert"}, entry : {"mk_ssl_contexts", "from_folder"}, ca : 
 
 ClientCases == [kind : {"client"}, cls : {"SoapClient", "SoapClientAsync"}, ctx : {"none", "client"}]
 
+\* A subscriber names its event sinks itself: a TLS provider is sent a Subscribe (over TLS) whose NotifyTo / EndTo
+\* address is written with the given scheme.  Whatever the subscriber wrote, the provider is bound: it contacts the
+\* sink with its client context, never in plaintext (the delivery may fail - that is the subscriber's problem).
+SinkCases == [kind : {"sink"}, mgr : {"sync", "async", "sync_ref", "async_ref"}, notify : {"https", "http"},
+              endto : {"none", "https", "http"}]
+\* how a bound provider may contact a sink: [tls, ctx]
+SinkContactOK(contact) == contact.tls /\ contact.ctx
+
 (* ------------------------------------------------------------------ environment *)
 AnswersTls(hasTls, c) == hasTls /\ c.peer = "yes"
 AnswersPlain(hasTls, c) == ~hasTls \/ c.peer = "no"
@@ -133,7 +141,7 @@ IsCfg == cfg.kind = "cfg"
 \* the configuration in the environment of the moment
 C == IF IsCfg THEN [cfg EXCEPT !.peer = env] ELSE cfg
 
-Init == /\ (cfg \in Configs \/ cfg \in CertCases \/ cfg \in ClientCases)
+Init == /\ (cfg \in Configs \/ cfg \in CertCases \/ cfg \in ClientCases \/ cfg \in SinkCases)
         /\ pi = 0 /\ mode = "init" /\ sub = "none"
         /\ env = (IF IsCfg THEN cfg.peer ELSE "yes") /\ round = 0
 
